@@ -38,6 +38,9 @@ type jop struct {
 }
 type scripted struct {
 	Note  string  `json:"note"`
+	// PremiseViolated: the history breaks a premise of the theorems on purpose (governance names the
+	// module account as funder); the direct oracle is off, the correspondence with the model is on.
+	PremiseViolated bool `json:"premise_violated"`
 	Start int64   `json:"start"`
 	Fund  []jfund `json:"fund"`
 	Ops   []jop   `json:"ops"`
